@@ -27,7 +27,7 @@ CLAIMED = {
         text="Arbitrary / word-payload / conforming well-framed streams x checks, views, filtered writing x filters x JSON/TOML x file/pipe x schedules x benign I/O faults; every statistic the statement lists is recomputed by the independent chain walker (incl. all 20 trigger-bit counters, HBFs, layer/staves over analysed packets) and compared with the statistics file and the report rows. Also: stave-mode streams with ALPIDE frame errors (sub-codes on continuation lines), the repository's sample files, stale statistics files, and two streams beyond 4 GiB of payload per quick run (repeating pipe seam); check runs with end-of-run expectations from a custom checks file, whose [E9001]/[E9002] messages count in totals and codes; the `FEE IDs seen` row of the report (listed + `K more` == all; 1 stream in 25 has 50-350 FEE IDs).",
         note="Links are compared as a set (views do not sort the list); unique error codes only when the run finalises its statistics."),
     "C17": dict(level="exploration", ref="DESIGN.md §3 C17",
-        text="Stop conditions placed inside active work: stop event injected at step 1 / last / uniformly drawn decision steps; stdout failing (EPIPE/ENOSPC) after 0 / len-1 / uniform N bytes in views, filtered data, statistics and report; error cap; mid-stream fatal framing error; crossed with random/PCT/starvation schedules and queue capacities capped to 1..8 (full queues). Oracle: no panic, no deadlock, all managed threads finished within the step budget, exit status allowed, partial -o file = whole packets and a prefix of the expected data. Bounded reaction measured in the program's own actions: input bytes read after the stop flag was raised (by the injected event or by the program) <= one batch + read-ahead; a view's failed write must be noticed (fatal reported or stop flag raised). Workloads: many batches with the reader queue capped to 1..2, an ignored -o next to checks, an error storm below the cap, input ending inside a packet while filtered data is written. The work left at the stop event is bounded by configuration: no data queue holds more undelivered packets than the largest configured capacity. 1 case in 13 runs on an input that NEVER ends (the pipe seam delivers the stream over and over) where the stop condition - unknown system ID in the first packet, stop event at a drawn step or at a drawn input byte (reaches a reader skipping between two decision steps), error cap, stdout going away - is the only way out: under a fair seeded schedule with queues capped to 1..4 the run must end within 150000 decision steps.",
+        text="Stop conditions placed inside active work: stop event injected at step 1 / last / uniformly drawn decision steps; stdout failing (EPIPE/ENOSPC) after 0 / len-1 / uniform N bytes in views, filtered data, statistics and report; error cap; mid-stream fatal framing error; crossed with random/PCT/starvation schedules and queue capacities capped to 1..8 (full queues). Oracle: no panic, no deadlock, all managed threads finished within the step budget, exit status allowed, partial -o file = whole packets and a prefix of the expected data. Bounded reaction measured in the program's own actions: input bytes read after the stop flag was raised (by the injected event or by the program) <= one batch + read-ahead; a view's failed write must be noticed (fatal reported or stop flag raised). Workloads: many batches with the reader queue capped to 1..2, an ignored -o next to checks, an error storm below the cap, input ending inside a packet while filtered data is written. The work left at the stop event is bounded by configuration: no data queue holds more undelivered packets than the largest configured capacity. 1 case in 13 runs on an input that NEVER ends (the pipe seam delivers the stream over and over) where the stop condition - unknown system ID in the first packet, stop event at a drawn step or at a drawn input byte (reaches a reader skipping between two decision steps), error cap, stdout going away - is the only way out: under a fair seeded schedule with queues capped to 1..4 the run must end within 150000 decision steps. The last stop point of every pipe case stalls the input instead (the pipe's writer stops sending, the pipe stays open) and delivers the stop event when every thread waits: known finding `stop-event-while-input-stalled` (nobody polls the flag while blocked).",
         note="The ctrlc helper thread and real signal delivery are replaced by the store they perform; bounded liveness = 50 x reference steps + 5000 (finite inputs), 150000 steps from the stop condition (endless inputs, fair random schedules only: under PCT/starvation a starved collector legitimately never raises the flag)."),
     "C18": dict(level="fault_enumeration", ref="DESIGN.md §3 C18",
         text="Crash-point enumeration: for small streams EVERY cut position 0..len, for larger ones every structural boundary (+-1) plus seeded positions; file (shorter file) and pipe (seam answers EOF at byte k); five check modes (findings compared) and views (rows compared); conforming and corrupted multi-link streams; under schedules. Oracle: normal end, findings below the incomplete packet identical to the untruncated run, view rows a prefix. Classes added: payloads above 8 KiB, an exact batch multiple of selected packets followed by skipped ones, small packets with header-only ones; a cut exactly between two packets leaves nothing incomplete (no message at or behind it); view rows of complete packets must not be missing; untruncated runs ending in a fatal are excluded; the boundary oracles apply where offset-to-next and memory size of the packets agree (otherwise the tool's reading position and the walker's boundaries differ by design); inputs several times the reader's 50 KiB buffer.",
